@@ -186,6 +186,20 @@ Proof.
   destruct (byte_eqb x a); assumption.
 Qed.
 
+(* ---- policy lookups through pset ------------------------------------------ *)
+Lemma plookup_pset n k v p :
+  plookup n (pset k v p) = if bytes_eqb k n then Some v else plookup n p.
+Proof.
+  induction p as [|[k' w] p IH]; simpl.
+  - destruct (bytes_eqb k n); reflexivity.
+  - destruct (bytes_eqb k' k) eqn:E; simpl.
+    + apply bytes_eqb_eq in E. subst. destruct (bytes_eqb k n); reflexivity.
+    + rewrite IH. destruct (bytes_eqb k' n) eqn:E2; [|reflexivity].
+      apply bytes_eqb_eq in E2. subst.
+      destruct (bytes_eqb k n) eqn:E3; [|reflexivity].
+      apply bytes_eqb_eq in E3. subst. rewrite bytes_eqb_refl in E. discriminate.
+Qed.
+
 (* ---- the claim-id grammar on a minted text ------------------------------- *)
 Definition secret_ok (s : bytes) : Prop :=
   contains ch_hash s = false /\ contains ch_rbr s = false.
